@@ -182,12 +182,29 @@ def run(ctx):
     ports_drop_check(ctx, prog)
     ctx.parallel(job, insts)
     start_cancel_battery(ctx)
+    # thread-local spawn: the hand-over of the start task between the caller and the spawner thread (abort-on-drop guard on whichever side holds the handle)
+    import C08_tlspawn
+    import C08_tlspawn_replay
+    C08_tlspawn.check(ctx, prog)
+    try:
+        r = C08_tlspawn_replay.run_native()
+        ctx.translator_validated += 1
+        ctx.extra['tlspawn_native'] = r
+        if r['violated']:
+            rec = {'name': 'tlspawn.native_battery', 'group': 'C08.tlspawn', 'solver_s': 0.0, 'status': 'cex'}
+            ctx.obligations.append(rec)
+            ctx.handle_cex(rec['name'], 'C08.tlspawn.native', None, lambda _m: {'replayed': True, 'detail': 'thread-local spawn abandoned while queued: %s' % r, 'replay': {'which': 'tlspawn'}}, rec)
+    except RuntimeError as e:
+        ctx.inconclusive.append('tlspawn native scenario unavailable: %s' % str(e)[-300:])
 
 
 def replay_file(path):
     import json
     import life_replay
     d = json.load(open(path))
+    if (d.get('replay') or {}).get('which') == 'tlspawn':
+        import C08_tlspawn_replay
+        return C08_tlspawn_replay.replay_from_json(d)
     if (d.get('replay') or {}).get('which') == 'start_cancelled':
         bad, log = life_replay.replay_start_cancelled(d['replay']['named'], d['replay']['links'])
         print('native spawn future dropped during pre_start:', log, bad)
